@@ -12,6 +12,7 @@ from /repo and compared with the specification tables by vm_compute.  The valida
 own sensitivity is re-measured on every run with word-level mutants of real modules."""
 import json
 import struct
+import time
 
 import c02gen
 import gen
@@ -23,27 +24,28 @@ import vcheck
 LEVEL = "proof"
 
 MODEL_FILES = ["Spv/Binary.v", "Spv/Graph.v", "Spv/Opcodes.v", "Spv/Validate.v", "Spv/Vulkan.v", "Spv/Caps.v",
-               "Spv/Typecheck.v", "Spv/ValidateMain.v", "Spv/ValidateProofs.v", "Spv/Builder.v"]
+               "Spv/Typecheck.v", "Spv/ValidateMain.v", "Spv/ValidateProofs.v", "Spv/Builder.v", "Spv/SpecNames.v"]
 
 V = {"1.0": 0x100, "1.1": 0x101, "1.2": 0x102, "1.3": 0x103, "1.4": 0x104, "1.5": 0x105, "1.6": 0x106}
 
 # (name, opts) — quick tier uses the first QUICK_SETS of them on the corpus
 OPTION_SETS = [
     ("default-1.1", {}),
-    ("v1.4-debug", {"version": V["1.4"], "debug": True}),
-    ("v1.0-pointsize-flipy-restrict", {"version": V["1.0"], "force_point_size": True, "adjust_coordinate_space": True,
-                                       "bounds_image_load": 1, "bounds_image_store": 1, "bounds_index": 1}),
-    ("v1.3-rzsw-noloopbound", {"version": V["1.3"], "force_loop_bounding": False, "bounds_image_load": 2,
+    ("v1.4-debug-pointsize-flipy-restrict", {"version": V["1.4"], "debug": True, "force_point_size": True, "adjust_coordinate_space": True,
+                                            "bounds_image_load": 1, "bounds_image_store": 1, "bounds_index": 1}),
+    ("v1.0-rzsw-noloopbound", {"version": V["1.0"], "force_loop_bounding": False, "bounds_image_load": 2,
                                "bounds_image_store": 2, "bounds_index": 2}),
     ("v1.6", {"version": V["1.6"]}),
+    ("v1.3-rzsw-debug", {"version": V["1.3"], "debug": True, "bounds_image_load": 2, "bounds_image_store": 2, "bounds_index": 2}),
     ("v1.2-caps-restricted", {"version": V["1.2"], "caps_available": [0, 1, 9, 10, 11, 22, 39, 50, 43, 44, 45, 34, 49, 35, 32],
                               "ray_query_init_tracking": False, "use_storage_io16": False}),
     ("v1.5-debug-restrict-index", {"version": V["1.5"], "debug": True, "bounds_index": 1, "bounds_image_load": 2}),
-    ("v1.0-rzsw-index", {"version": V["1.0"], "bounds_index": 2, "bounds_image_store": 1, "force_point_size": True}),
-    ("v1.3-debug-flipy", {"version": V["1.3"], "debug": True, "adjust_coordinate_space": True}),
+    ("v1.0-restrict-pointsize", {"version": V["1.0"], "bounds_index": 1, "bounds_image_load": 1, "bounds_image_store": 1,
+                                 "force_point_size": True}),
+    ("v1.3-flipy", {"version": V["1.3"], "adjust_coordinate_space": True}),
     ("v1.4-caps-minimal", {"version": V["1.4"], "caps_available": [0, 1]}),
 ]
-QUICK_SETS = 4
+QUICK_SETS = 3
 
 # fixed minimal programs for defects found by this check (kept so that the known-finding keys are
 # stable and a repair is noticed); the program generator avoids these shapes
@@ -57,6 +59,9 @@ PROBES = [
     ("probe-rzsw-storage", {"bounds_image_load": 2},
      "@group(0) @binding(0) var t: texture_storage_2d<rgba8unorm, read>;\n"
      "@compute @workgroup_size(1) fn main() { let v = textureLoad(t, vec2<i32>(1, 2)); }\n"),
+    ("probe-rzsw-storage-1d", {"bounds_image_load": 2},
+     "@group(0) @binding(0) var t: texture_storage_1d<rgba8unorm, read>;\n"
+     "@compute @workgroup_size(1) fn main() { let v = textureLoad(t, 1); }\n"),
     ("probe-abstract-shift", {},
      "var<private> pv: i32 = 1;\n"
      "@compute @workgroup_size(1) fn main() { var acc: i32 = (4 << 19u) + pv; pv = acc; }\n"),
@@ -73,11 +78,10 @@ PROBES = [
      "@fragment fn main() -> @location(0) vec4<f32> { return vec4<f32>(ub.inner.m1 + ub.m6); }\n"),
 ]
 # mutations that make every module they apply to invalid (the others may be harmless on some modules)
-MUST_CATCH = ["duplicate_type", "instr_after_terminator", "swap_entry_point_and_execution_mode", "drop_matrix_stride",
-              "drop_block", "drop_binding", "drop_descriptor_set", "drop_location", "drop_builtin", "drop_shader_capability",
-              "bound_off_by_one", "drop_interface_variable", "use_before_def", "redefine_id", "drop_terminator",
-              "branch_into_other_function", "type_as_operand", "magic", "version_high_byte", "memory_model_twice",
-              "variable_in_second_block", "store_operands_swapped", "drop_loop_merge"]
+MUST_CATCH = ["duplicate_type", "instr_after_terminator", "swap_entry_point_and_execution_mode", "drop_block", "drop_binding",
+              "drop_descriptor_set", "drop_location", "drop_builtin", "bound_off_by_one", "use_before_def", "redefine_id",
+              "drop_terminator", "branch_into_other_function", "type_as_operand", "magic", "version_high_byte",
+              "memory_model_twice", "variable_in_second_block", "store_operands_swapped"]
 
 
 def instr_table(words):
@@ -130,13 +134,26 @@ def words_bytes(words):
     return struct.pack("<%dI" % len(words), *words)
 
 
+def run_validator(exe, values, chunk=60):
+    """vcheck.run_model over several processes (the extracted validator is single-threaded)."""
+    if len(values) <= chunk:
+        return vcheck.run_model(exe, values) if values else []
+    from concurrent.futures import ThreadPoolExecutor
+    parts = [values[i:i + chunk] for i in range(0, len(values), chunk)]
+    out = []
+    with ThreadPoolExecutor(max(1, vcheck.NCPU // 2)) as ex:
+        for r in ex.map(lambda p: vcheck.run_model(exe, p), parts):
+            out += r
+    return out
+
+
 def compile_all(tools, programs, optsets):
     """programs: [(name, src)], optsets: [(oname, opts)] -> [(name, oname, opts, src, result)]"""
     jobs = []
     meta = []
     for oname, opts in optsets:
         for name, src in programs:
-            jobs.append({"id": len(jobs), "src": src, "opts": opts, "want": ["validate"]})
+            jobs.append({"id": len(jobs), "src": src, "opts": opts})      # corpus shaders: taken as valid
             meta.append((name, oname, opts, src))
     res = nagarun.parallel_batches(tools["spvdrive"], "compile", jobs, per_job_timeout=30.0, chunk=48)
     return [(m[0], m[1], m[2], m[3], res.get(i)) for i, m in enumerate(meta)]
@@ -144,14 +161,19 @@ def compile_all(tools, programs, optsets):
 
 def validate_modules(ctx, exe, compiled, stats, found):
     """Run the extracted validator on every emitted module; collect violations by key."""
-    # "valid program" = accepted by naga's parser, lowerer and IR validator
-    mods = [(n, o, opts, src, r["words"]) for (n, o, opts, src, r) in compiled if r and "words" in r and not r.get("validate")]
+    # "valid program" = accepted by naga's parser, lowerer and IR validator (safety net for generator bugs).
+    # naga's validator reports `break` inside a switch that is not inside a loop as "break outside of loop";
+    # that is valid WGSL (a C11/C08 matter), so this one message does not disqualify a program.
+    def disqualified(r):
+        return any("break outside of loop" not in e for e in (r.get("validate") or []))
+    mods = [(n, o, opts, src, r["words"]) for (n, o, opts, src, r) in compiled if r and "words" in r and not disqualified(r)]
     for (n, o, opts, src, r) in compiled:
         if r is None or "crash" in r or "panic" in r:
             stats["compile_crash"] = stats.get("compile_crash", 0) + 1      # C10's business, counted only
         elif "words" not in r:
             stats["not_emitted"] = stats.get("not_emitted", 0) + 1
-    outs = vcheck.run_model(exe, [m[4] for m in mods]) if mods else []
+    outs = run_validator(exe, [m[4] for m in mods])
+    clean = []          # modules accepted by the validator: the base of the mutation self-test
     for (n, o, opts, src, words), res in zip(mods, outs):
         stats["modules"] = stats.get("modules", 0) + 1
         if not res.get("decoded"):
@@ -164,7 +186,9 @@ def validate_modules(ctx, exe, compiled, stats, found):
         stats.setdefault("versions_seen", set()).add(res["stats"]["version"])
         for v in res["violations"]:
             found.setdefault(violation_key(words, v), []).append((n, o, opts, src, words, v))
-    return mods
+        if not res["violations"]:
+            clean.append((n, o, opts, src, words))
+    return clean
 
 
 def self_test(ctx, exe, mods, per_mutation):
@@ -184,7 +208,7 @@ def self_test(ctx, exe, mods, per_mutation):
             n += 1
             if n >= per_mutation:
                 break
-    outs = vcheck.run_model(exe, jobs) if jobs else []
+    outs = run_validator(exe, jobs)
     table = {}
     missed_must = []
     for (mname, k), r in zip(meta, outs):
@@ -199,7 +223,16 @@ def self_test(ctx, exe, mods, per_mutation):
 
 
 def run(ctx):
+    timing = {}
+    t0 = time.time()
+
+    def lap(name):
+        nonlocal t0
+        timing[name] = round(time.time() - t0, 1)
+        t0 = time.time()
+    ctx.cov["timing_s"] = timing
     tools = vcheck.build_harness(["goextract", "spvextract", "spvdrive"])
+    lap("go_build")
     ok, failed, log = vcheck.proof_step(
         ctx, "Props/C02.v", MODEL_FILES,
         gen_writer=lambda: gen.regenerate(tools, ["spvenums", "spvbuild"]),
@@ -223,12 +256,16 @@ def run(ctx):
     ]
     broken = None
     if not ok:
+        # an R obligation that fails names what differs (constant, section order, modelled source text); the V tie below
+        # then looks for a concrete module that shows it
         broken = "Coq development no longer checks: %s" % (failed or log[-800:])
-        # an R obligation that fails is itself the explanation (constant or section order differs from the specification)
-        ctx.violation(broken, found_input=False, broken=broken, files={"coq_make.log": log[-20000:]},
-                      key="coq:" + ",".join(failed or ["make"]))
-        return
+        if not all(vcheck.vo_ok(f) for f in ("Spv/ValidateMain.v", "Spv/SpecNames.v")):
+            ctx.violation(broken, found_input=False, broken=broken, files={"coq_make.log": log[-20000:]},
+                          key="coq:" + ",".join(failed or ["make"]))
+            return
+    lap("coq_make")
     exe = ocamlbuild.build("spv")
+    lap("extract_ocaml")
 
     # constants of spirv.go against the specification tables (values; names are a Coq obligation)
     rows = [[t, n, v] for t, n, v in gen.spv_consts(tools)]
@@ -250,13 +287,11 @@ def run(ctx):
     nsets = ctx.scale(QUICK_SETS, len(OPTION_SETS))
     compiled = compile_all(tools, corpus, OPTION_SETS[:nsets])
     mods = validate_modules(ctx, exe, compiled, stats, found)
-    corpus_modules = stats.get("modules", 0)
+    lap("corpus_compile_validate")
 
     # generated programs: control-flow and type/resource shapes the corpus does not contain
-    nprog = ctx.scale(300, 3000)
+    nprog = ctx.scale(100, 1500)
     progs = c02gen.programs(ctx.rng.fork("gen"), nprog)
-    gsets = [OPTION_SETS[i % len(OPTION_SETS)] for i in range(ctx.scale(3, len(OPTION_SETS)))]
-    gcompiled = []
     # every generated program under a rotating subset of option sets
     per = ctx.scale(2, 4)
     rng = ctx.rng.fork("genopts")
@@ -271,24 +306,45 @@ def run(ctx):
     gstats = {}
     gmods = validate_modules(ctx, exe, gcompiled, gstats, found)
     rejected = sum(1 for c in gcompiled if c[4] and ("err" in c[4]))
-    invalid = sum(1 for c in gcompiled if c[4] and c[4].get("validate"))
+    invalid = sum(1 for c in gcompiled if c[4] and any("break outside of loop" not in e for e in (c[4].get("validate") or [])))
 
-    # report
+    lap("generated_compile_validate")
+    # report: one violation per key; when one rule shows up under many contexts (a systematic defect) the first few
+    # keys get their own replay and the rest are summarised (known findings are always matched key by key)
+    known = {k.get("match") for k in ctx._known if k.get("status") == "open"}
+    per_rule = {}
+    overflow = {}
     for key in sorted(found):
         items = found[key]
         n, o, opts, src, words, v = min(items, key=lambda it: len(it[4]))
+        rule = v["rule"]
+        if key not in known:
+            per_rule[rule] = per_rule.get(rule, 0) + 1
+            if per_rule[rule] > 6:
+                overflow.setdefault(rule, []).append((key, len(items)))
+                continue
         what = ("naga emitted SPIR-V that breaks rule %s at instruction %d (opcode %d, detail %d/%d): shader %s, options %s "
                 "[%d occurrence(s) in %d module(s); key %s]"
-                % (v["rule"], v["idx"], v["op"], v["a"], v["b"], n, o, len(items), len({(i[0], i[1]) for i in items}), key))
+                % (rule, v["idx"], v["op"], v["a"], v["b"], n, o, len(items), len({(i[0], i[1]) for i in items}), key))
         ctx.violation(what, key=key, files={"shader.wgsl": src, "options.json": json.dumps(opts), "module.spv": words_bytes(words),
                                             "violation.json": json.dumps(v), "words.json": json.dumps(words)})
-
-    table, missed = self_test(ctx, exe, mods + gmods, ctx.scale(6, 40))
+    for rule, ks in sorted(overflow.items()):
+        ctx.violation("rule %s is also broken under %d further contexts (%d occurrences), e.g. %s"
+                      % (rule, len(ks), sum(k[1] for k in ks), ", ".join(k[0] for k in ks[:4])),
+                      key="%s|many" % rule, files={"keys.json": json.dumps(ks)})
+    if broken:
+        if ctx.violations:
+            ctx.cov["broken_tie"] = broken
+        else:
+            ctx.violation(broken + "\n(no emitted module violating a rule was found)", found_input=False, broken=broken,
+                          files={"coq_make.log": log[-20000:]}, key="coq:" + ",".join(failed or ["make"]))
+    table, missed = self_test(ctx, exe, mods + gmods, ctx.scale(4, 40))
     for mname, n, o in missed[:5]:
         ctx.violation("validator self-test: the invalidating mutation '%s' of the module for %s (%s) was not reported — the "
                       "validator (not naga) lost sensitivity" % (mname, n, o), found_input=False,
                       broken="Spv validator rule for mutation %s" % mname, key="selftest:" + mname)
 
+    lap("self_test")
     for s in (stats, gstats):
         if "versions_seen" in s:
             s["versions_seen"] = sorted(s["versions_seen"])
